@@ -50,7 +50,7 @@ package kmipclient
 //@   ensures i == old(i) && c == old(c)
 //@   ensures r1 == nil ==> r0 != nil
 //@   ghostmod cmwCalls, cmwSelf, cmwNext, cmwCtx, cmwMsg, cmwRet, cmwErr, rtCalls, rtCtx, rtMsg, rtRet, rtErr, transmissions, dials, lastErrRetryable, connBroken, connClosed
-//@   modifies c.conn
+//@   modifies c.conn, c.conn.closed.v
 
 // Roundtrip enters the chain at stage 0 with its own arguments.
 //@ func (*Client).Roundtrip
@@ -60,7 +60,7 @@ package kmipclient
 //@   ensures r1 == nil ==> r0 != nil
 //@   ghostmod cmwCalls, cmwSelf, cmwNext, cmwCtx, cmwMsg, cmwRet, cmwErr, rtCalls, rtCtx, rtMsg, rtRet, rtErr, transmissions, dials, lastErrRetryable, connBroken, connClosed
 //@   ghost sentVersion = old(msg.Header.ProtocolVersion)
-//@   modifies c.conn
+//@   modifies c.conn, c.conn.closed.v
 
 // ---------------------------------------------------------------------------
 // the server is arbitrary (C12, C13): what comes back from the transport is unconstrained except that a
@@ -89,7 +89,7 @@ package kmipclient
 //@   ensures r0 == nil && old(c.version) == nil && discovered(lastResp(c)) ==> forall k int :: 0 <= k && k < len(discoverPl(lastResp(c)).ProtocolVersion) && contains(c.supportedVersions, discoverPl(lastResp(c)).ProtocolVersion[k]) ==> verLE(discoverPl(lastResp(c)).ProtocolVersion[k], *c.version)
 //@   ensures old(c.version) == nil && ite(len(c.middlewares) == 0, rtErr, cmwErr) == nil && discovered(lastResp(c)) && (exists k int :: 0 <= k && k < len(discoverPl(lastResp(c)).ProtocolVersion) && contains(c.supportedVersions, discoverPl(lastResp(c)).ProtocolVersion[k])) ==> r0 == nil
 //@   ensures old(c.version) == nil && (ite(len(c.middlewares) == 0, rtErr, cmwErr) == nil) && noDiscovery(lastResp(c)) ==> ite(contains(c.supportedVersions, kmip.V1_0), r0 == nil && *c.version == kmip.V1_0, r0 != nil)
-//@   modifies c.version, c.conn
+//@   modifies c.version, c.conn, c.conn.closed.v
 //@   ghostmod cmwCalls, cmwSelf, cmwNext, cmwCtx, cmwMsg, cmwRet, cmwErr, rtCalls, rtCtx, rtMsg, rtRet, rtErr, transmissions, dials, lastErrRetryable, connBroken, connClosed
 //@   loop 0 invariant -1 <= rangeindex && rangeindex < len(pl.ProtocolVersion)
 //@   loop 0 invariant best != nil ==> contains(c.supportedVersions, *best) && contains(pl.ProtocolVersion, *best)
